@@ -181,7 +181,7 @@ def scalar_ops(n, K, a, obj, P):
     conf = list(K["conf"])
     bad = list(K["bad"]) if P.get("invalid", True) else []
     if P.get("small"):
-        conf, bad = conf[:1] + conf[-1:], bad[:1]
+        conf, bad = conf[:1] + conf[-1:], (bad[:1] + bad[-1:] if len(bad) > 1 else bad[:1])
     for ip in inpl:
         f = _flags(ip)
         for v in conf:
@@ -333,7 +333,7 @@ def assign_ops(n, K, a, obj, P):
     conf = list(K["conf"])
     bad = list(K["bad"]) if P.get("invalid", True) else []
     if P.get("small"):
-        conf, bad = conf[:1] + conf[-1:], bad[:1]
+        conf, bad = conf[:1] + conf[-1:], (bad[:1] + bad[-1:] if len(bad) > 1 else bad[:1])
     for v in conf:
         ops.append({"op": "set", "attr": n, "value": v, "shape": "set:conf"})
     for v in bad:
